@@ -340,6 +340,9 @@ def run(prop, tier, seed):
     if prop == "C05":
         import client_checks
         client_checks.api_model(prop, tier, seed, verdict, cov, family="chan")
+    if prop == "C10":
+        import client_checks
+        client_checks.api_model(prop, tier, seed, verdict, cov, family="lst")
     if prop == "C12":
         handshake(prop, tier, seed, verdict, cov)
         client_versions(prop, tier, seed, verdict, cov)
@@ -364,6 +367,7 @@ def run(prop, tier, seed):
         spec_to_impl_replay=cov.get("replay", {}),
         api_level_replay=cov.get("api_replay", {}),
         channel_api_replay=cov.get("chan_api_replay", {}),
+        listener_api_replay=cov.get("listener_api_replay", {}),
     )
     if have_mc:
         coverage.update(states=cov["states"], transitions=cov["transitions"], mc=cov.get("mc", []))
@@ -431,7 +435,7 @@ def replay(prop, path, seed):
         recs = vlib.read_ndjson(out)
         judge(prop, recs, res2, "spec-replay", ["--in", bfile, "--out", out, "--seed", seed], "stored behaviour", verdict)
         log(f"re-run of the stored behaviour on the current tree: {verdict.violations} violation(s) of {prop}")
-    elif data.get("kind") in ("api-replay", "chan-replay"):
+    elif data.get("kind") in ("api-replay", "chan-replay", "listener-replay"):
         import client_checks
         return client_checks.replay(prop, path, seed)
     elif data.get("kind") == "handshake":
